@@ -90,6 +90,7 @@ class Run:
             cmd += ["-simulate", simulate]
         cmd += list(extra) + [os.path.join(self.specdir, module + ".tla")]
         env = dict(os.environ)
+        env["JAVA_TOOL_OPTIONS"] = (env.get("JAVA_TOOL_OPTIONS", "") + " -Xss512m").strip()   # deep recursive operators
         if deque:
             env["JAVA_TOOL_OPTIONS"] = (env.get("JAVA_TOOL_OPTIONS", "") +
                                         " -Dtlc2.tool.queue.IStateQueue=StateDeque").strip()
